@@ -104,6 +104,8 @@ func NewTraceWriter(path string, kf []string) (*TraceWriter, error) {
 	return tw, nil
 }
 
+func newBufWriter(f *os.File) *bufio.Writer { return bufio.NewWriterSize(f, 1<<20) }
+
 func (tw *TraceWriter) Emit(m map[string]any) {
 	b, err := json.Marshal(m)
 	if err != nil {
